@@ -51,9 +51,30 @@ pub fn document(fmt: u32, contours: &[String]) -> String {
     document_o(fmt, 0, contours)
 }
 
-/// `order`: which permutation of the attribute groups (x y | type | smooth | name) every point is written in
-/// (acceptance must not depend on it: third-party writers sort attributes differently)
+/// spelling of an enumerated attribute value: 0 literal, 1 first character as a decimal character reference,
+/// 2 every character as a hexadecimal character reference (`yes` = `&#x79;&#x65;&#x73;`): the parser must compare the
+/// UNESCAPED value
+fn spell(v: &str, how: usize) -> String {
+    match how {
+        0 => v.to_string(),
+        1 => {
+            let mut it = v.chars();
+            match it.next() {
+                Some(c) => format!("&#{};{}", c as u32, it.as_str()),
+                None => String::new(),
+            }
+        }
+        _ => v.chars().map(|c| format!("&#x{:x};", c as u32)).collect(),
+    }
+}
+
+/// `order`: `order % 24` = which permutation of the attribute groups (x y | type | smooth | name) every point is written
+/// in (acceptance must not depend on it: third-party writers sort attributes differently); `order / 24` = how the values
+/// of `type` and `smooth` are spelt (see `spell`)
 pub fn document_o(fmt: u32, order: usize, contours: &[String]) -> String {
+    let how = order / 24;
+    let order = order % 24;
+    let permuted = order != 0 || how != 0;
     let mut s = String::new();
     s.push_str("<?xml version=\"1.0\" encoding=\"UTF-8\"?>\n");
     s.push_str(&format!("<glyph name=\"a\" format=\"{}\">\n<outline>\n", fmt));
@@ -76,13 +97,13 @@ pub fn document_o(fmt: u32, order: usize, contours: &[String]) -> String {
             // an on-curve "line"/"offcurve" distinction is by the `type` attribute; offcurve may be
             // written without the attribute (the default), exercised for every second off-curve
             if !(ch.to_ascii_lowercase() == 'o' && pi % 2 == 1) {
-                groups[1] = format!(" type=\"{}\"", typ_name(ch));
+                groups[1] = format!(" type=\"{}\"", spell(typ_name(ch), how));
             }
             if ch.is_ascii_uppercase() {
-                groups[2] = " smooth=\"yes\"".to_string();
-            } else if order != 0 && pi % 3 == 2 {
+                groups[2] = format!(" smooth=\"{}\"", spell("yes", how));
+            } else if permuted && pi % 3 == 2 {
                 // the default spelt out (only in the permuted documents, so that order 0 stays what it was)
-                groups[2] = " smooth=\"no\"".to_string();
+                groups[2] = format!(" smooth=\"{}\"", spell("no", how));
             }
             if named {
                 // a name full of XML-special characters, written with entities
@@ -230,6 +251,13 @@ pub fn gen(tier: &str, seed: u64, out: &mut dyn Write) {
                         emit_o(out, 1, order, &[v.clone()]);
                     }
                 }
+                // values of `type` / `smooth` spelt with character references, in norad's order and in two others
+                for order in [24usize, 48, 24 + 7, 48 + 17] {
+                    emit_o(out, 2, order, &[v.clone()]);
+                    if len <= 2 {
+                        emit_o(out, 1, order, &[v.clone()]);
+                    }
+                }
             }
         });
     }
@@ -292,7 +320,7 @@ pub fn gen(tier: &str, seed: u64, out: &mut dyn Write) {
             }
             cs.push(s);
         }
-        let order = if rng.chance(1, 2) { 0 } else { rng.below(24) };
+        let order = if rng.chance(1, 2) { 0 } else { rng.below(24) + 24 * if rng.chance(1, 3) { 1 + rng.below(2) } else { 0 } };
         emit_o(out, if rng.chance(1, 5) { 1 } else { 2 }, order, &cs);
     }
 }
